@@ -9,6 +9,27 @@ ASSUME = ("Trusted base: go/ssa lowering (x/tools v0.29.0, naive form) of /repo'
 
 CLAIMS = {
  # id: (level, text, note(unverified), technique, config)
+ "C22": ("proof",
+   "DB.checkEntryIdxMode is proved (loop invariants over the directory listing, both directions) to return an error exactly when the directory holds data files together with / without the sparse-index directory in the wrong mode, for every listing; Open is proved to return that error before any further file-system mutation (at most the idempotent MkdirAll of the root precedes it) and never to succeed on a mismatching directory.",
+   "Not decided: that sparse directories always contain bpt/ and RAM directories never do (frame over the path helpers), directories left by a crash between MkdirAlls, and 'same contents' when switching between the two RAM modes (that is C19/C08). ioutil.ReadDir, path.Ext/Base, os.MkdirAll and filesystem.PathIsExist are assumed contracts; DB.buildIndexes is an assumed contract (it runs only after the check).",
+   "contract-based deductive verification (weakest-precondition VCs over go/ssa, z3/cvc5)",
+   {}),
+ "C10": ("proof",
+   "Mechanism-level proof on the real write path: Tx.put buffers a well-formed entry stamped with the transaction id and status UnCommitted and preserves the Tx invariant; Tx.Commit (loop invariant over all pending entries) writes every entry at writeOff == ActualSize inside the segment, marks exactly the last one Committed, advances the offsets only after a successful write (and sync), and rotateActiveFile installs a fresh empty active file; on every error return after a failed write the offsets still point at the failed record, so no hole or half-counted record precedes later commits.",
+   "Not decided here: the recovery side (parseDataFiles / buildHintIdx committed-id filter) and the crash lemma over a ghost log are not yet under contract; transaction-id uniqueness (snowflake node per transaction) is a known weakness not modelled; the OS appending what WriteAt was given is assumed (interface contract RWManager.WriteAt/Sync/Close, NewDataFile assumed).",
+   "contract-based deductive verification (weakest-precondition VCs over go/ssa, z3/cvc5)",
+   {}),
+ "C11": ("proof",
+   "Typestate proof with ghost counter `unsynced` (file writes not yet followed by a successful Sync): with SyncEnable the loop invariant of Tx.Commit shows unsynced == 0 before every record write and at the successful return, and Tx.rotateActiveFile preserves it; so the durable image is always a prefix of whole records ending, after Commit returns, with the commit marker.",
+   "Assumed: fsync/msync persist data and the directory entry; the sparse-mode index writers (WriteNodes, Persistence, buildTxIDRootIdx, buildBucketMetaIdx) have assumed contracts ('sync when SyncEnable') - their bodies are not yet verified; recovery succeeding on that image is C09/C10.",
+   "contract-based deductive verification (ghost typestate), z3/cvc5",
+   {}),
+ "C12": ("proof",
+   "Tx.put is proved to refuse (and leave pendingWrites untouched) on a closed or read-only transaction and on an empty key; Tx.Commit is proved, at every one of its nine return statements, to leave lock state and tx.db untouched on failure, not to rotate before rejecting an oversized first entry, and to keep KeyCount; the obligation 'a failed Commit has not touched the in-memory indexes' fails at six return statements - a genuine defect of the pinned tree, listed in known-findings.json by obligation name.",
+   "Not yet under contract: Rollback, DB.managed, the frames of the exported Tx API methods (SMove* in particular). After-reopen effects of a failed commit rest on C10.",
+   "contract-based deductive verification (weakest-precondition VCs over go/ssa, z3/cvc5)",
+   {}),
+
  "C21": ("proof",
    "Every obligation generated from the contracts on the real encode/decode functions (Entry.Encode/Size/GetCrc/IsZero, readMetaData, DataFile.ReadAt, BPTreeRootIdx.*, ReadBPTreeRootIdxAt, BucketMeta.*, ReadBucketMeta) is discharged by an SMT solver for all field values and lengths: the encoders produce the stated byte layout and CRC, and a decoder returns a record only when its CRC field equals the CRC of the stored header bytes and the returned bucket/key/value, with every returned field decoded from those bytes. No panic for any input.",
    "Not decided: that CRC-32 detects a given corruption (property of the polynomial, assumed); the composition encode->write->read as one lemma (both sides are proved against the same format predicate); B+ tree node files (encoding/binary reflection). MMap short reads are a C19 matter.",
